@@ -150,8 +150,17 @@ pub fn plan_c20(tier: Tier, seed: u64) -> Value {
     let mut rng = Rng::new(seed);
     let mut cfg = conc_cfg(&mut rng, true);
     cfg.streams = 1 + rng.usize_below(3);
-    let clients = 1 + rng.usize_below(6);
-    let per = match tier { Tier::Quick => 3 + rng.usize_below(8), Tier::Thorough => 3 + rng.usize_below(14) };
+    // one run in six is a burst: more clients than a writer's request channel holds (capacity is
+    // max(1000 / writer threads, 16)), all on one bucket, with the writers starved so that the channel
+    // is full when the syncer ticks
+    let burst = rng.chance(1, 10);
+    let clients = if burst { 18 + rng.usize_below(8) } else { 1 + rng.usize_below(6) };
+    let per = if burst { 1 + rng.usize_below(2) } else { match tier { Tier::Quick => 3 + rng.usize_below(8), Tier::Thorough => 3 + rng.usize_below(14) } };
+    if burst {
+        cfg.writer_threads = 64;
+        cfg.buckets = 64;
+        cfg.partitions = 1;
+    }
     let mix = Mix { wrong_expect: 10, conflict: 0, oversized: 5, bad_ts: 3, io_fail: 0, multi: 30, big_bias: 12, max_events: 3 };
     let mut ops = Vec::new();
     for c in 0..clients {
@@ -159,7 +168,7 @@ pub fn plan_c20(tier: Tier, seed: u64) -> Value {
             ops.push(ConcOp { client: c, op: ClientOp::Append(gen_append(&mut rng, &cfg, &mix)) });
         }
     }
-    let plan = ConcPlan { cfg, ops, nclients: clients, policy: *rng.pick(&[0u8, 1, 3, 3]), sched_seed: rng.next_u64() >> 8, max_steps: 8000, iter_yields: 0, crash_images: 0, hold_flush: false };
+    let plan = ConcPlan { cfg, ops, nclients: clients, policy: if burst { 1 } else { *rng.pick(&[0u8, 1, 3, 3]) }, sched_seed: rng.next_u64() >> 8, max_steps: 8000, iter_yields: 0, crash_images: 0, hold_flush: false };
     serde_json::to_value(plan).unwrap()
 }
 
@@ -274,6 +283,7 @@ pub fn run_conc(prop: &'static str, plan_v: &Value) -> RunOutcome {
         return h.finish(None, json!({"cfg": plan.cfg}), None);
     }
     let nwriters = h.db().verif_num_writer_threads();
+    let mut timer_fires_while_full = 0u32;
     h.gate.wait_all_parked(nwriters);
     let mut rng = Rng::new(plan.sched_seed);
     let mut clients: Vec<Client> = (0..plan.nclients)
@@ -345,7 +355,12 @@ pub fn run_conc(prop: &'static str, plan_v: &Value) -> RunOutcome {
         // the syncer thread ticks in (simulated) real time: at most one FlushPoll is outstanding per
         // writer, otherwise the timer would flood the queues in zero simulated time
         let queues_empty = h.gate.lock().writers.values().all(|w| w.queue <= 0);
-        if h.cfg.timer_enabled() && queues_empty && (blocked_clients || enabled.is_empty()) {
+        let a_queue_is_full = { let cap = (1000 / nwriters.max(1)).max(16) as i64; h.gate.lock().writers.values().any(|w| w.queue >= cap) };
+        if h.cfg.timer_enabled() && (queues_empty || (a_queue_is_full && timer_fires_while_full < 3)) && (blocked_clients || enabled.is_empty()) {
+            if a_queue_is_full {
+                timer_fires_while_full += 1;
+                h.probe("timer_tick_with_a_full_request_channel");
+            }
             enabled.push(Ent::Timer);
         }
         if enabled.is_empty() && !blocked_writers.is_empty() {
